@@ -51,6 +51,17 @@ func buildWorkload(p *modelParams) (forge.Eras, *gen.Mixed, uint32) {
 	for _, f := range p.Features {
 		feat[f] = true
 	}
+	if feat["ungraded-snapshot"] && !p.Literal {
+		// make sure a snapshot height lies between 2.0 and 2.0.2 (the era is stretched when it does not)
+		if s := ((e.V20 + 143) / 144) * 144; s+2 >= e.V202 {
+			d := s + 3 - e.V202
+			e.V202 += d
+			e.OneWaySmall += d
+			e.V204 += d
+			e.V204Burn += d
+			e.PIP10 += d
+		}
+	}
 	if feat["busy"] {
 		mo.TxPerBlock = 10
 	}
@@ -341,6 +352,8 @@ func init() {
 					ps[i].AlignV20Dev = -1
 				}
 				ps = append(ps, modelParams{Seed: c.Seed*1000 + 777, Features: []string{"c15", "quiet", "align"}, AlignV20Dev: 0})
+				// the mint address's owner spends around (and in) the burn block
+				ps = append(ps, modelParams{Seed: c.Seed*1000 + 790, Features: []string{"c15", "quiet", "mint-key"}, AlignV20Dev: -1})
 				// the 2.0.2 activation on, right before and right after a payout/snapshot height
 				al := []int{0, 143, 1}
 				if c.Thorough() {
@@ -384,7 +397,7 @@ func init() {
 	registry["C04"] = func(c *Ctx) *orch.Outcome {
 		return runModelCheck(c, modelSpec{Level: "exploration",
 			Rule: "one evaluation = one block applied by the real daemon; per asset, the observed change of total supply must equal the sum of the block's issuance/destruction events (mining, staking, holder and developer payouts, FCT burns, conversions, bank yield/refund, burn-address transfers, one-time adjustments) computed by the reference rules, and every address/asset balance must equal the prediction (so nobody outside the block's events changes; a transfer's debit equals its credits). Distinct non-trivial = (event kind, era) pairs observed.",
-			Profiles: func(c *Ctx) []modelParams { return stdProfiles(c, 3, 64, "busy") },
+			Profiles: func(c *Ctx) []modelParams { return stdProfiles(c, 3, 64, "busy", "c03") },
 			NonTrivial: func(rs []*orch.Result) (int64, map[string]interface{}) {
 				k := orch.UnionDistinct(rs, "event_kinds")
 				return int64(len(k)), map[string]interface{}{"event_kind_era_pairs": k, "supply_deltas_checked": orch.SumCounter(rs, "supply_deltas_checked")}
